@@ -186,6 +186,68 @@ def check_pad_random(case, viol):
             return
 
 
+def gen_params_case(rng):
+    """annotation parameters with pairwise different non-default settings, boxes / keypoints around the thresholds"""
+    shape = rng.sample([10, 12, 14, 16], 3)
+    H, W, D = shape
+    ths = rng.sample([1.5, 2.0, 2.5, 3.0, 3.5, 4.0, 5.0], 3)
+    bp = {'format': rng.choice(['pascal_voc_3d', 'coco_3d']), 'min_width': ths[0], 'min_height': ths[1], 'min_depth': ths[2],
+          'min_planar_area': rng.choice([0.0, 4.0, 9.0]), 'min_volume': rng.choice([0.0, 10.0, 30.0]),
+          'min_area_visibility': rng.choice([0.0, 0.3, 0.6]), 'min_volume_visibility': rng.choice([0.0, 0.2, 0.5]),
+          'check_each_transform': rng.random() < 0.5, 'label_fields': ['lab']}
+    kp = {'format': rng.choice(['xyz', 'xyzas', 'xyzsa', 'zyx']), 'remove_invisible': rng.random() < 0.6,
+          'angle_in_degrees': rng.random() < 0.5, 'check_each_transform': rng.random() < 0.5, 'label_fields': ['ids']}
+    boxes = []
+    for i in range(14):
+        x1, y1, z1 = rng.uniform(0, W - 1.2), rng.uniform(0, H - 1.2), rng.uniform(0, D - 1.2)
+        ext = [rng.choice([1.0, 2.0, 2.2, 2.7, 3.2, 3.7, 4.5, 6.0]) for _ in range(3)]
+        boxes.append([x1, y1, z1, min(x1 + ext[0], W), min(y1 + ext[1], H), min(z1 + ext[2], D)])
+    kps = [[rng.uniform(0, W - 0.01), rng.uniform(0, H - 0.01), rng.uniform(0, D - 0.01), rng.uniform(0, 6.2), rng.uniform(0.5, 2)] for _ in range(8)]
+    x1, y1, z1 = rng.randint(0, 3), rng.randint(0, 3), rng.randint(0, 3)
+    win = [x1, y1, z1, rng.randint(W - 4, W), rng.randint(H - 4, H), rng.randint(D - 4, D)]
+    return {'shape': shape, 'bbox_params': bp, 'keypoint_params': kp, 'boxes': boxes, 'kps': kps, 'window': win,
+            'seed': rng.randint(0, 10 ** 6)}
+
+
+def check_params(case, viol):
+    """the record stores the annotation parameters; replaying on the same inputs must filter, convert and label alike"""
+    shape = tuple(case['shape'])
+    bp, kp = dict(case['bbox_params']), dict(case['keypoint_params'])
+    w = case['window']
+    img = R.labelled(shape, 'int32')
+
+    def fmt_box(b):
+        return (b[0], b[1], b[2], b[3] - b[0], b[4] - b[1], b[5] - b[2]) if bp['format'] == 'coco_3d' else tuple(b)
+
+    def fmt_kp(k):
+        x, y, z, a, s = k
+        if kp['angle_in_degrees']:
+            a = a * 180.0 / np.pi
+        return {'xyz': (x, y, z), 'zyx': (z, y, x), 'xyzas': (x, y, z, a, s), 'xyzsa': (x, y, z, s, a)}[kp['format']]
+    data = dict(image=img, bboxes=[fmt_box(b) for b in case['boxes']], lab=list(range(len(case['boxes']))),
+                keypoints=[fmt_kp(k) for k in case['kps']], ids=['k%d' % i for i in range(len(case['kps']))])
+    tf = [A.Crop(x_min=w[0], y_min=w[1], z_min=w[2], x_max=w[3], y_max=w[4], z_max=w[5], p=1.0), A.HorizontalFlip(p=0.5)]
+    try:
+        pipe = A.ReplayCompose(tf, bbox_params=A.BboxParams(**bp), keypoint_params=A.KeypointParams(**kp))
+        random.seed(case['seed'])
+        res = pipe(**copy.deepcopy(data))
+    except Exception:  # noqa -- C08's question
+        return 'raises'
+    random.seed(case['seed'] + 17)
+    try:
+        res2 = A.ReplayCompose.replay(res['replay'], **copy.deepcopy(data))
+    except Exception as e:  # noqa
+        viol.append({'site': 'C13:params:replay-raises', 'kind': 'params', 'case': jsonable(case),
+                     'observed': '%s: %s' % (type(e).__name__, str(e)[:160]), 'expected': 'the recorded outputs'})
+        return 'bad'
+    for key in data:
+        if not same(res[key], res2[key]):
+            viol.append({'site': 'C13:params:replay-differs', 'kind': 'params', 'case': jsonable(case), 'target': key,
+                         'observed': '%s: %s' % (key, str(res2[key])[:200]), 'expected': 'as recorded: %s' % str(res[key])[:200]})
+            return 'bad'
+    return 'ok'
+
+
 def run(seed=0, tier='quick', hints=None, broken=False):
     rng = random.Random(seed * 86028121 + 13)
     viol, evals, outcomes, seen = [], 0, {}, set()
@@ -209,6 +271,10 @@ def run(seed=0, tier='quick', hints=None, broken=False):
         evals += 1
     check_pad_random({'seed': rng.randint(0, 10 ** 6)}, viol)
     evals += 1
+    for i in range((40 if tier == 'quick' else 800) * (3 if broken else 1)):
+        o = check_params(gen_params_case(rng), viol)
+        outcomes['params-' + o] = outcomes.get('params-' + o, 0) + 1
+        evals += 1
     return {'violations': viol, 'info': {'evaluations': evals, 'distinct': len(seen) + n, 'class_outcomes': outcomes,
                                          'what': 'record -> replay (other seed / numpy state / volume) per class and per operator tree'}}
 
@@ -217,6 +283,8 @@ def replay(v):
     out = []
     if v.get('kind') == 'class':
         check_class(v['case'], out)
+    elif v.get('kind') == 'params':
+        check_params(v['case'], out)
     elif v.get('kind') == 'tree':
         c = v['case']
 
